@@ -185,6 +185,25 @@ pub fn run(op: &str, args: &[&str]) -> Option<String> {
             }
             format!("W={}|P={}", w.join(","), show_bytes(st.to_string().as_bytes()))
         }
+        /* as "stream", but the caller keeps writing after a failed write (what a
+         * retrying caller sees: the buffer and the entries a failed write leaves behind) */
+        "stream.cont" => {
+            let mut st = SummaryStream::new();
+            let mut w = vec![];
+            for a in args {
+                let chunk = bytes(a);
+                match st.write(&chunk) {
+                    Ok(n) => {
+                        w.push(format!("{}:{}", if n == chunk.len() { "ok" } else { "short" }, st.entries().len()))
+                    }
+                    Err(e) => {
+                        let k = if e.kind() == std::io::ErrorKind::InvalidData { "err".to_string() } else { format!("err-{:?}", e.kind()) };
+                        w.push(format!("{}:{}", k, st.entries().len()));
+                    }
+                }
+            }
+            format!("W={}|P={}", w.join(","), show_bytes(st.to_string().as_bytes()))
+        }
         _ => return None,
     })
 }
